@@ -6,7 +6,8 @@ import Uquic.Proofs.WireLongHeader
 set_option linter.unusedSimpArgs false
 set_option linter.unusedVariables false
 
-namespace Uquic.Proofs.Wire
+namespace Uquic.Proofs.WireMore
+open Uquic.Proofs.Wire
 open Uquic.Model.Wire Uquic.Model.Wire.Varint Uquic.Model.Wire.Hdr
 
 theorem retry_bits (v : Nat) : typeOfBits v (bitsOfType v ptRetry) = ptRetry ∧ bitsOfType v ptRetry < 4 := by
@@ -113,4 +114,4 @@ theorem retryHeader_roundtrip (h : Header) (pn pnLen : Nat) (tag : Bytes)
     rw [hshape, parseHeader_cons, hu, hlay, he]
     rw [if_pos (by simp [htag])]
 
-end Uquic.Proofs.Wire
+end Uquic.Proofs.WireMore
